@@ -98,7 +98,7 @@ class World:
         return self.monotonic_ns() / 1e9
 
     def sleep(self, s):
-        self.now_ns += max(0, int(s * 1e9))
+        self.now_ns += max(0, int(round(s * 1e9)))
         self.run_hooks()
 
 
